@@ -4,6 +4,8 @@ import RbV.Model.LFSortedCheck
 import RbV.Model.SampledSA
 import RbV.Model.SampleBuild
 import RbV.Lemmas.SortedBridge
+import RbV.Thm.GenSrcBackwardSearch
+import RbV.Thm.GenSrcOcc
 /-!
 # C05 — FM-index backward search returns exactly the pattern's occurrences
 
@@ -329,5 +331,75 @@ example : BSModel.backwardSearch (LF.lessRef (LF.bwtOf txt' sa')) (LF.occRef (LF
     = .absent := by decide
 example : LF.bwtOf txt' sa' = [1, 2, 4, 3, 1, 0, 4, 1] := by decide
 end model_examples
+
+/-! ## `FMIndexable::backward_search` translated from the source text (docs/notes/GEN.md, "Translated function bodies")
+
+`RbV/Gen/SrcBackwardSearch.lean` is regenerated from `src/data_structures/fmindex.rs` by `tools/rs2lean.py` on every
+`./check C05` (proofs: `RbV/Thm/GenSrcBackwardSearch.lean`).  The required trait methods `self.less(a)`, `self.occ(r, a)`,
+`self.bwt()` are parameters; the `break` is a flag of the fold; `BackwardSearchResult` is a generated inductive
+(`GenSrcBackwardSearch.toGen : BSRes → BackwardSearchResult`).  `Rs.Res.ok v` = no checked `usize` operation panics. -/
+
+/-- **`backward_search`, as written, is the mirror model `BSModel.backwardSearch`** over the same `less`/`occ`, for a
+non-empty BWT, `less(a) ≥ 1` on the pattern symbols (the subtraction `less + occ - 1`) and sums that fit a `usize` -/
+theorem backward_search_source_eq_model (lessF : Nat → Nat) (occF : Nat → Nat → Nat) (bwt pat : List Nat)
+    (hn : 0 < bwt.length) (hn' : bwt.length < 2 ^ 64) (hm : pat.length < 2 ^ 64) (hless : ∀ a ∈ pat, 1 ≤ lessF a)
+    (hb : ∀ a ∈ pat, ∀ r, lessF a + occF r a < 2 ^ 64) :
+    Gen.SrcBackwardSearch.backward_search lessF occF bwt pat
+      = Rs.Res.ok (GenSrcBackwardSearch.toGen (BSModel.backwardSearch lessF occF bwt.length pat)) :=
+  GenSrcBackwardSearch.backward_search_eq_model lessF occF bwt pat hn hn' hm hless hb
+
+/-- **generated code satisfies the property**: on every LF-sorted array of a text whose last symbol is smaller than all
+pattern symbols (one or many sentinels), the *translated* `backward_search` — run with `less`/`occ` of the BWT of
+`(t, sa)` — returns without panicking a result that satisfies the property statement `BSProp`, for every non-empty
+pattern (sizes below `2^64`) -/
+theorem backward_search_source_correct (t sa pat : List Nat) (hp : pat ≠ []) (hn : 0 < t.length)
+    (hlen : t.length < 2 ^ 64) (hm : pat.length < 2 ^ 64)
+    (hsent : ∀ a ∈ pat, t.getD (t.length - 1) 0 < a)
+    (hsorted : ∀ a ∈ pat, LF.Sorted t sa a) :
+    ∃ res, Gen.SrcBackwardSearch.backward_search (LF.lessRef (LF.bwtOf t sa)) (LF.occRef (LF.bwtOf t sa))
+        (LF.bwtOf t sa) pat = Rs.Res.ok (GenSrcBackwardSearch.toGen res) ∧ BSProp t sa pat res := by
+  obtain ⟨a0, ha0⟩ : ∃ a, a ∈ pat := by
+    cases pat with
+    | nil => exact absurd rfl hp
+    | cons a q => exact ⟨a, by simp⟩
+  have hsa : sa.length = t.length := LF.sa_length (hsorted a0 ha0).perm
+  have hbl : (LF.bwtOf t sa).length = sa.length := by simp [LF.bwtOf]
+  refine ⟨_, ?_, backward_search_correct t sa pat hp hn hsent hsorted⟩
+  rw [← hbl]
+  apply GenSrcBackwardSearch.backward_search_eq_model
+  · rw [hbl, hsa]; exact hn
+  · rw [hbl, hsa]; exact hlen
+  · exact hm
+  · exact fun a ha => LF.less_pos (hsorted a ha) hn (hsent a ha)
+  · intro a _ r
+    have h1 := LF.less_add_count_le (LF.bwtOf t sa) a
+    have h2 : LF.occRef (LF.bwtOf t sa) r a ≤ (LF.bwtOf t sa).count a := by
+      unfold LF.occRef
+      exact (List.take_sublist _ _).count_le a
+    rw [hbl, hsa] at h1
+    omega
+
+/-- the `occ` the search is run with is what the translated `Occ::get` returns on the table of `Occ::new`
+(`FMIndex::occ(r, a)` is `self.occ.get(&self.bwt, r, a)`): for every sampling rate `k ≥ 1` and every row, with
+`bytecount::count` read as `List.count` (restated from C04, `RbV/Thm/GenSrcOcc.lean`; the generated file is rebuilt from
+`bwt.rs` on every `./check C05` as well) -/
+theorem occ_source_is_spec (occ : List (List Nat)) (k : Nat) (bwt : List Nat) (r a : Nat)
+    (hcp : occ[a]? = some (OccM.occNew bwt k a)) (hk : 0 < k) (hk32 : k < 2 ^ 32) (hr : r < bwt.length)
+    (hn : bwt.length < 2 ^ 64) :
+    Gen.SrcOcc.get (fun s c => s.count c) occ k bwt r a = Rs.Res.ok (LF.occRef bwt r a) :=
+  GenSrcOcc.get_exact_of_table occ k bwt r a hcp hk hk32 hr hn
+
+-- GATTACA$: complete, partial (4 symbols) and absent through the translated function
+example : Gen.SrcBackwardSearch.backward_search (LF.lessRef (LF.bwtOf [3, 1, 4, 4, 1, 2, 1, 0] [7, 6, 4, 1, 5, 0, 3, 2]))
+    (LF.occRef (LF.bwtOf [3, 1, 4, 4, 1, 2, 1, 0] [7, 6, 4, 1, 5, 0, 3, 2])) (LF.bwtOf [3, 1, 4, 4, 1, 2, 1, 0] [7, 6, 4, 1, 5, 0, 3, 2])
+    [3, 1, 4, 4, 1, 2, 1] = Rs.Res.ok (.Complete (5, 6)) := by decide
+example : Gen.SrcBackwardSearch.backward_search (LF.lessRef (LF.bwtOf [3, 1, 4, 4, 1, 2, 1, 0] [7, 6, 4, 1, 5, 0, 3, 2]))
+    (LF.occRef (LF.bwtOf [3, 1, 4, 4, 1, 2, 1, 0] [7, 6, 4, 1, 5, 0, 3, 2])) (LF.bwtOf [3, 1, 4, 4, 1, 2, 1, 0] [7, 6, 4, 1, 5, 0, 3, 2])
+    [3, 4, 1, 2, 1] = Rs.Res.ok (.Partial (6, 7) 4) := by decide
+example : Gen.SrcBackwardSearch.backward_search (LF.lessRef (LF.bwtOf [3, 1, 4, 4, 1, 2, 1, 0] [7, 6, 4, 1, 5, 0, 3, 2]))
+    (LF.occRef (LF.bwtOf [3, 1, 4, 4, 1, 2, 1, 0] [7, 6, 4, 1, 5, 0, 3, 2])) (LF.bwtOf [3, 1, 4, 4, 1, 2, 1, 0] [7, 6, 4, 1, 5, 0, 3, 2])
+    [1, 5] = Rs.Res.ok .Absent := by decide
+-- an empty BWT: `self.bwt().len() - 1` underflows, the Rust code panics
+example : Gen.SrcBackwardSearch.backward_search (fun _ => 0) (fun _ _ => 0) [] [1] = Rs.Res.panic := by decide
 
 end RbV.Thm.C05
